@@ -100,6 +100,8 @@ fn dispatch(op: &str, args: &[&str]) -> String {
         "media_preset" => builder::op_media_preset(args),
         "media_twice" => op_media_twice(args),
         "media_remove" => op_media_remove(args),
+        "eq_media" => op_eq::<Media>(args),
+        "eq_master" => op_eq::<Master>(args),
         "laws" => laws::op_laws(args),
         "assoc" => laws::op_assoc(args),
         "btag" => builder::op_btag(args),
@@ -388,6 +390,38 @@ fn op_media_remove(args: &[&str]) -> String {
         });
     }
     value_result::<Media>(&x, None, text.len())
+}
+
+/// `eq_media TEXT1 TEXT2` / `eq_master TEXT1 TEXT2`: both texts parsed with a
+/// plain `try_from`, compared with the playlist's own `PartialEq`.
+/// `badinput` (not exactly two hex arguments) | `panic` | `err` (either parse
+/// rejected) | `ok (eq B(x1==x2) DUMP1 DUMP2)`.
+fn op_eq<K: Kind>(args: &[&str]) -> String {
+    let (Some(t1), Some(t2)) = (text_arg(args, 0), text_arg(args, 1)) else {
+        return BADINPUT.to_string();
+    };
+    if args.len() != 2 {
+        return BADINPUT.to_string();
+    }
+    // One lifetime for both borrows, so that `x1 == x2` type-checks.
+    let (t1, t2): (&str, &str) = (&t1, &t2);
+    let (x1, x2) = match (guard(|| K::parse(None, t1)), guard(|| K::parse(None, t2))) {
+        (None, _) | (_, None) => return PANIC.to_string(),
+        (Some(None), _) | (_, Some(None)) => return ERR.to_string(),
+        (Some(Some(x1)), Some(Some(x2))) => (x1, x2),
+    };
+    let Some(equal) = guard(|| x1 == x2) else {
+        return PANIC.to_string();
+    };
+    let mut out = String::with_capacity(64 + (t1.len() + t2.len()) * 8);
+    out.push_str("ok (eq ");
+    observe::b(&mut out, equal);
+    out.push(' ');
+    K::dump(&x1, &mut out);
+    out.push(' ');
+    K::dump(&x2, &mut out);
+    out.push(')');
+    out
 }
 
 /// `ok MEDIA` | `err` | `panic`
